@@ -1,7 +1,12 @@
 /- registry of all driver handlers -/
 import PymotoVerif.Drv.C13
+import PymotoVerif.Drv.C03
+import PymotoVerif.Drv.C02
+import PymotoVerif.Drv.C16
+import PymotoVerif.Drv.C18
+import PymotoVerif.Drv.C20
 namespace PymotoVerif.Drv
 open Lean
 def allHandlers : List (String × (Json → R Json)) :=
-  C13.handlers
+  C13.handlers ++ C03.handlers ++ C02.handlers ++ C16.handlers ++ C18.handlers ++ C20.handlers
 end PymotoVerif.Drv
